@@ -170,8 +170,17 @@ def post_to_crs(args, kw, res, exc, snap):
     if same:
         return _mon.check(exc is None and res is self, "Geometry.to_crs", lambda: wit({"exc": exc, "same_object": res is self}), key="to_crs-same-crs-not-identity", cls="same-crs",
                           sig=hsig("t1", g.wkb, str(target)))
-    if wrapdateline or check_and_fix:
-        return _mon.skip("Geometry.to_crs", "wrapdateline/check_and_fix (may legitimately restructure)")
+    if check_and_fix:
+        return _mon.skip("Geometry.to_crs", "check_and_fix (may legitimately restructure)")
+    if wrapdateline:
+        # chopping only concerns geometries that reach the antimeridian: anywhere else the keyword must change nothing (densification included)
+        allc = [c for p in _parts(g) for c in p[1] if len(c)]
+        if not allc:
+            return _mon.skip("Geometry.to_crs", "wrapdateline on an empty geometry")
+        xy = np.concatenate(allc)
+        lon, _lat = gen.transformer(self.crs.proj.to_wkt(), "EPSG:4326").transform(xy[:, 0], xy[:, 1])
+        if not np.isfinite(lon).all() or np.abs(lon).max() > 170:
+            return _mon.skip("Geometry.to_crs", "wrapdateline near the antimeridian (may legitimately restructure)")
     if exc is not None:
         return _mon.fail("Geometry.to_crs", wit({"exc": exc}), key="to_crs-raises")
     src_geom = g
@@ -202,7 +211,7 @@ def post_to_crs(args, kw, res, exc, snap):
                 worst = max(worst, float(d.max()))
     densified = src_geom is not g
     _mon.check(worst <= 1e-12, "Geometry.to_crs", lambda: wit({"why": "vertex not where the projection library maps it", "max_rel_diff": worst}), key="to_crs-vertex",
-               cls=("custom-crs|" if ("+proj" in str(self.crs) or "+proj" in str(target)) else "") + ("densified|" if densified else "") + g.geom_type,
+               cls=("custom-crs|" if ("+proj" in str(self.crs) or "+proj" in str(target)) else "") + ("wrapdateline|" if wrapdateline else "") + ("densified|" if densified else "") + g.geom_type,
                sig=hsig("t", g.wkb, str(self.crs), str(target), resolution), sample=wit())
     _mon.obs["to_crs_bit_identical" if worst == 0 else "to_crs_within_1e-12"] += 1
 
@@ -336,6 +345,9 @@ def drive_to_crs(mon: Monitor, rng: random.Random, n: int) -> None:
             span = max(shp1.bounds[2] - shp1.bounds[0], shp1.bounds[3] - shp1.bounds[1], 1e-9)
             resolution = span / rng.choice([3, 10, 40])
         target = rng.choice([e2[0], e2[0].lower(), int(e2[0].split(":")[1])])
+        if rng.random() < 0.15:
+            # same request with wrapdateline=True (geometries stay well away from the antimeridian: the result must not depend on the keyword)
+            call(g1.to_crs, target, resolution, wrapdateline=True) if resolution is not None else call(g1.to_crs, target, wrapdateline=True)
         g2, exc = call(g1.to_crs, target, resolution) if resolution is not None else call(g1.to_crs, target)
         if exc is not None or resolution is not None or shp1.is_empty:
             continue
@@ -421,7 +433,7 @@ def run(mon: Monitor, tier: str, seed: int, shard: int, nshards: int) -> None:
         for pt, n in [("densify", 2000), ("Geometry.segmented", 2000), ("Geometry.to_crs", 1000), ("roundtrip", 200), ("densify|on-axis|vertical", 20), ("densify|far", 200),
                       ("densify|near-axis", 50), ("Geometry.to_crs|same-crs", 20), ("Geometry.to_crs|no-crs", 10), ("roundtrip|datum-shift", 20), ("roundtrip|same-datum", 100),
                       ("Geometry.to_crs|densified|Polygon", 10), ("Geometry.to_crs|MultiPolygon", 20), ("Geometry.to_crs|GeometryCollection", 20), ("Geometry.segmented|Polygon", 100),
-                      ("Geometry.segmented|LinearRing", 50), ("Geometry.to_crs|custom-crs|Polygon", 15), ("Geometry.segmented|GeometryCollection", 50)]:
+                      ("Geometry.segmented|LinearRing", 50), ("Geometry.to_crs|custom-crs|Polygon", 15), ("Geometry.to_crs|wrapdateline|densified|Polygon", 2), ("Geometry.to_crs|wrapdateline|densified|LineString", 2), ("Geometry.segmented|GeometryCollection", 50)]:
             mon.floor(pt, n)
     finally:
         detach_all()
